@@ -115,6 +115,10 @@ func schedMulti(r *world.Rng, w *world.World) {
 	if w.Sched.Strategy == "pct" {
 		w.Sched.PCTDepth = r.Range(1, 5)
 	}
+	if r.Bool(0.3) {
+		w.Sched.LateProb = r.Float()
+		w.Sched.LateMax = r.Pick(3, 10, 30, 100, 300, 1000)
+	}
 }
 
 func delays(r *world.Rng) []int64 {
@@ -1015,6 +1019,17 @@ func genC04(r *world.Rng, w *world.World, big bool) {
 			}
 		}
 		top := sum + r.Pick(1, 1, 2, 100)
+		if r.Bool(0.25) {
+			// "any top weight": top only says which clauses are hard, it need not exceed the sum of the
+			// soft weights (the optimum may well be at or above it)
+			maxSoft := 0
+			for _, s := range soft {
+				if s.Weight > maxSoft {
+					maxSoft = s.Weight
+				}
+			}
+			top = maxSoft + r.Pick(1, 1, 2)
+		}
 		if allSoft && r.Bool(0.5) {
 			top = 0 // no top weight: every clause is soft
 		}
@@ -1193,9 +1208,20 @@ func genC16(r *world.Rng, w *world.World, big bool) {
 	if big {
 		k = r.Range(2, 6)
 	}
+	// a quarter of the worlds are homogeneous: every task exercises the same feature, because state
+	// shared by mistake is usually shared inside one feature (a table, a pool, a scratch buffer of one
+	// package) and only collides when that feature runs twice at the same time
+	same, sameSub := -1, -1
+	if r.Bool(0.25) {
+		same, sameSub = r.Pick(0, 4, 5, 6, 7, 8, 9, 9, 9, 9), r.Intn(4)
+	}
 	for i := 0; i < k; i++ {
 		var t world.TaskSpec
-		switch r.Intn(10) {
+		kind, sub9 := r.Intn(10), r.Intn(4)
+		if same >= 0 {
+			kind, sub9 = same, sameSub
+		}
+		switch kind {
 		case 0, 1, 2, 3: // CNF solving, sized so that conflict analysis runs many times
 			n := r.Range(15, 40)
 			m := int(float64(n) * (3.9 + 0.8*r.Float()))
@@ -1229,7 +1255,7 @@ func genC16(r *world.Rng, w *world.World, big bool) {
 			t = sub.Tasks[0]
 		case 9:
 			sub := world.World{}
-			switch r.Intn(4) {
+			switch sub9 {
 			case 0:
 				genC08(r, &sub, big)
 			case 1:
